@@ -214,7 +214,7 @@ class Probe:
         self.expect = expect      # [(args, expected bool)]
 
 
-def static_tu(pkg, layout, model_enabled=None, conv_table=None, std17=False):
+def static_tu(pkg, layout, model_enabled=None, conv_table=None):
     """returns (source, probes: {id: Probe}, classes)"""
     classes = inventory(pkg, layout)
     src = ['#include <%s/%s.hpp>' % (pkg, pkg), PRELUDE, 'namespace probes {']
@@ -303,6 +303,21 @@ def static_tu(pkg, layout, model_enabled=None, conv_table=None, std17=False):
         p = Probe(i, 'conversion', c, 'char<->const char', '\n'.join(lines), [])
         probes[i] = p
         src.append(p.text)
+    pid[0] += 1
+    i = pid[0]
+    lines = []
+    for what in ('implicit_', 'explicit_', 'assign_'):
+        lines.append('static_assert(c11::conv3<sbepp::cursor<char>, sbepp::cursor<const char>>::%s, "C11 %d POS cursor %s char->const char");' % (what, i, what))
+        lines.append('static_assert(!c11::conv3<sbepp::cursor<const char>, sbepp::cursor<char>>::%s, "C11 %d NEG cursor %s const char->char");' % (what, i, what))
+    # init_cursor / init_const_cursor give the view's byte type resp. its const version
+    if msgs_first(classes) is not None:
+        m0 = msgs_first(classes).id
+        lines.append('static_assert(std::is_same<decltype(sbepp::init_cursor(std::declval<%s<const char>>())), sbepp::cursor<const char>>::value, "C11 %d NEG init_cursor(const view) is not a const cursor");' % (m0, i))
+        lines.append('static_assert(std::is_same<decltype(sbepp::init_const_cursor(std::declval<%s<char>>())), sbepp::cursor<const char>>::value, "C11 %d NEG init_const_cursor(view) is not a const cursor");' % (m0, i))
+        lines.append('static_assert(std::is_same<decltype(sbepp::make_const_view<::%s::messages::%s>(std::declval<char*>(), 0)), %s<const char>>::value, "C11 %d NEG make_const_view is not a const view");' % (pkg, msgs_first(classes).msg, m0, i))
+    p = Probe(i, 'conversion', None, 'cursor char<->const char', '\n'.join(lines), [])
+    probes[i] = p
+    src.append(p.text)
     # full byte-type matrix for messages and cursors (expected values: the Lean `conv` table)
     msgs = [c for c in classes if c.kind == 'message']
     for bytes_, guard in ((BYTES4, None), (BYTES6, '#if __cplusplus >= 201703L')):
@@ -335,6 +350,13 @@ def static_tu(pkg, layout, model_enabled=None, conv_table=None, std17=False):
     src.append('} // namespace probes')
     src.append('int main() { return 0; }')
     return '\n'.join(src) + '\n', probes, classes
+
+
+def msgs_first(classes):
+    for c in classes:
+        if c.kind == 'message':
+            return c
+    return None
 
 
 def conv_expect(f, t, table=None):
@@ -387,9 +409,28 @@ def negative_tus(pkg, classes):
     return out
 
 
-def compile_only(case, src_path, cxx, std, defines=()):
-    cmd = [cxx, '-std=' + std, '-fsyntax-only', '-w', '-I' + os.path.join(case.dir, 'gen'),
-           '-I' + os.path.join(core.REPO, 'sbepp/src')] + ['-D' + d for d in defines] + [src_path]
+def build_pch(case, cxx, std):
+    """precompile <pkg>/<pkg>.hpp once per (schema, configuration); returns the
+    flags that make the tiny probe TUs use it ([] when it cannot be built: the
+    probes then parse the headers themselves)"""
+    pkg = case.s['package']
+    tag = '%s-%s' % (cxx.replace('+', 'p'), std.replace('+', 'p'))
+    hdr = os.path.join(case.dir, 'gen', pkg, pkg + '.hpp')
+    base = [cxx, '-std=' + std, '-w', '-I' + os.path.join(case.dir, 'gen'), '-I' + os.path.join(core.REPO, 'sbepp/src')]
+    if cxx.startswith('clang'):
+        out = os.path.join(case.dir, 'pch-%s.pch' % tag)
+        rc, _ = core.sh(base + ['-x', 'c++-header', hdr, '-o', out], timeout=600)
+        return ['-include-pch', out] if rc == 0 else []
+    d = os.path.join(case.dir, 'pch-' + tag)
+    os.makedirs(os.path.join(d, pkg), exist_ok=True)
+    rc, _ = core.sh(base + ['-x', 'c++-header', hdr, '-o', os.path.join(d, pkg, pkg + '.hpp.gch')], timeout=600)
+    return ['-I' + d] if rc == 0 else []
+
+
+def compile_only(case, src_path, cxx, std, defines=(), pch=()):
+    cmd = [cxx, '-std=' + std, '-fsyntax-only', '-w'] + list(pch) + [
+        '-I' + os.path.join(case.dir, 'gen'), '-I' + os.path.join(core.REPO, 'sbepp/src')] + [
+        '-D' + d for d in defines] + [src_path]
     if cxx.startswith('clang'):
         cmd.insert(1, '-ferror-limit=0')
     else:
@@ -530,8 +571,7 @@ def _extra_level(level, var, ind, uid, depth=0):
     for fname, lfs in wire.group_fields(level['leaves']):
         single = len(lfs) == 1 and len(lfs[0]['path']) == 1
         tag = 'typename sbepp::traits_tag<typename std::decay<decltype(%s)>::type>::type::%s' % (var, fname)
-        if depth == 0 or True:
-            L.append('%s{ auto t_ = sbepp::get_by_tag<%s>(%s); (void)t_; }' % (ind, tag, var))
+        L.append('%s{ auto t_ = sbepp::get_by_tag<%s>(%s); (void)t_; }' % (ind, tag, var))
         for lf in lfs:
             if lf['kind'] == 'array':
                 L.append('%sro::touch_static_array(%s);' % (ind, wire.cpp_path(var, lf['path'])))
@@ -542,7 +582,6 @@ def _extra_level(level, var, ind, uid, depth=0):
         gv = 'xg%d' % next(uid)
         ev = 'xe%d' % next(uid)
         L.append('%s{ auto %s = %s.%s(); ro::touch_group(%s);' % (ind, gv, var, g['name'], gv))
-        L.append('%s  { auto t_ = sbepp::get_by_tag<typename sbepp::traits_tag<typename std::decay<decltype(%s)>::type>::type>(%s); (void)t_; }' % (ind, gv, var) if False else '')
         L.append('%s  for(auto %s : %s) {' % (ind, ev, gv))
         L += _extra_level(g['level'], ev, ind + '    ', uid, depth + 1)
         L.append('%s  }' % ind)
@@ -635,7 +674,7 @@ def build_runtime_driver(case, cxx, std):
         open(tmp, 'w').write(runtime_driver(case.s['package'], case.layout))
         os.replace(tmp, src)
     exe = os.path.join(case.dir, 'c11ro-%s-%s' % (cxx.replace('+', 'p'), std))
-    cmd = [cxx, '-std=' + std, '-O1', '-g0', '-w', '-fsanitize=undefined', '-fsanitize-undefined-trap-on-error',
+    cmd = [cxx, '-std=' + std, '-O0', '-g0', '-w', '-fsanitize=undefined', '-fsanitize-undefined-trap-on-error',
            '-I' + os.path.join(case.dir, 'gen'), '-I' + os.path.join(core.REPO, 'sbepp/src'),
            '-I' + os.path.join(core.VERIF, 'harness'), src, '-o', exe]
     rc, log = core.sh(cmd, timeout=900)
